@@ -616,4 +616,75 @@ def firstLevels {χ : Type} (rows : List (χ × Label)) : Option (List String) :
 /-- ascending in Python's `<` (hence free of duplicates) -/
 def Sorted (l : List Val) : Prop := List.Pairwise (fun a b => Val.lt a b = true) l
 
+/-! ## Phase 5: the constructor's argument table and `read`'s label-type / reward dispatch as data
+
+These tables say, as plain data, what the definitions above assume about `SupervisedSimulation.__init__` and the
+`if`-chain of `SupervisedSimulation.read`; `Generated/C14Supervised.lean` holds the same tables as extracted from the
+current source with Python's `ast` (harness `pre_build`), and `Props/C14.lean` proves the two equal. -/
+
+/-- `label_type.lower()` on the literals of `Literal["c","r","m"]`, either case (the driver parses the harness' literal with it) -/
+def parseLType : String → Option LType
+  | "c" => some .c | "C" => some .c
+  | "r" => some .r | "R" => some .r
+  | "m" => some .m | "M" => some .m
+  | _ => none
+
+/-- the Python class of a reward object -/
+def Reward.className : Reward → String
+  | .l1 _ => "L1Reward" | .binary _ => "BinaryReward" | .hamming _ => "HammingReward"
+
+/-- the reward class `read` instantiates, by label type -/
+def rewardClassOf : LType → String
+  | .r => "L1Reward" | .c => "BinaryReward" | .m => "HammingReward"
+
+/-- the reward constructor `read` binds, by label type and "the first label is a `Categorical`": the plain classification
+branch delists the label first (`lambda l: BinaryReward(delist(l))` = `.binary (.atom v)` with `delist l = v`) -/
+def rewardCtorOf : LType → Bool → String
+  | .r, _ => "L1Reward"
+  | .c, true => "BinaryReward"
+  | .c, false => "BinaryReward(delist)"
+  | .m, _ => "HammingReward"
+
+/-- how `read` computes the action list, by label type and "the first label is a `Categorical`":
+`[]`; the declared levels filtered to the labels present (`catActions`); `sorted(set(map(delist,lbls)))`;
+`sorted(set(chain(*lbls)))` (`sortedSet` of `delistAll` / `flattenM`) -/
+def actionsKindOf : LType → Bool → String
+  | .r, _ => "empty"
+  | .c, true => "levels&present"
+  | .c, false => "sorted&set&delist"
+  | .m, _ => "sorted&set&chain"
+
+def labelTypeLiterals : List String := ["r", "c", "m", "R", "C", "M"]
+
+/-- one row per label-type literal and first-label kind: (literal, first label is Categorical, reward class, action computation) -/
+def dispatchTable : List (String × Bool × String × String) :=
+  labelTypeLiterals.flatMap fun lit => [false, true].filterMap fun cat =>
+    (parseLType lit).map fun t => (lit, cat, rewardCtorOf t cat, actionsKindOf t cat)
+
+/-- `isinstance(first_label, (int,float))`: the Python types the model's `.atom (.num _)` stands for (`bool` is an `int`) -/
+def inferNumericTypes : List String := ["float", "int"]
+
+/-- where the label type comes from, in order of precedence: rows of an already labelled source carry `tipe`
+(`self._label_type or first.tipe`), other rows do not (`self._label_type or <inferred>`); `resolveGiven` + `inferType` -/
+def typeSources (hasTipe : Bool) : List String := if hasTipe then ["explicit", "tipe"] else ["explicit", "inferred"]
+
+/-- the argument table of the source overload: (name, position, default when absent); `None` = the stage is left out
+(`sampleOpt none`, no `LabelRows`: the source yields pairs) resp. the type is resolved by `typeSources` -/
+def ctorSourceArgs : List (String × Nat × String) :=
+  [("source", 0, "<required>"), ("label_col", 1, "None"), ("label_type", 2, "None"), ("take", 3, "None")]
+
+/-- the argument table of the (X,Y) overload -/
+def ctorXYArgs : List (String × Nat × String) := [("X", 0, "<required>"), ("Y", 1, "<required>"), ("label_type", 2, "None")]
+
+/-- the stages joined behind the source, by class name: (joined when this argument is not None, class, its first argument).
+In the model `Reservoir(take)` sits before `LabelRows(label_col, ·)` (`csvSimT` / `arffFileSim` / `simDenseS`); the other order
+yields the same interactions (the reservoir selects by position) and is not distinguished -/
+def pipelineJoins : List (String × String × List String) :=
+  [("label_col", "LabelRows", ["label_col"]), ("take", "Reservoir", ["take"])]
+
+/-- what an interaction is built from, for rows of a labelled source (`.feats` / `.label`) and for pairs (`[0]` / `[1]`):
+the context is the row's features, the actions are the shared list, the reward object is built from the row's label -/
+def yieldTable : List (String × String) :=
+  [("actions", "actions"), ("context", "row.feats"), ("context", "row[0]"), ("rewards", "reward(row.label)"), ("rewards", "reward(row[1])")]
+
 end Coba.C14
